@@ -137,6 +137,7 @@ type Unit struct {
 	maxPaths      int
 	// current loop ghost bindings
 	ghostIdx  []Val
+	sortOrd   int
 	ghostSeen []Val
 	writesTypeInv bool
 	noSafety  bool
